@@ -522,6 +522,8 @@ class Engine:
                 items = [self.coerce(x, t, line) for x, t in zip(sv.items, ty.args)]
                 s = self.w.sort(ty)
                 return SV(s.constructor(0)(*[i.term for i in items]), ty, fresh=True)
+            elif isinstance(sv, PyTuple) and ty.kind == "opt" and ty.args[0].kind == "tuple":
+                return self.coerce(self.coerce(sv, ty.args[0], line), ty, line)
             elif isinstance(sv, PyTuple) and ty.kind == "list":
                 el = ty.args[0]
                 out = self.empty_list(el)
